@@ -640,11 +640,12 @@ fn c09(cfg: &CCfg, e: &Exec, f: &Facts, vs: &mut Vec<Violation>, nt: &mut bool) 
                     .unwrap_or(false);
             let conn_err = o == "Shutdown" || o.starts_with("Channel(");
             let own_send_failed = o == "Send";
+            // the call may have been expired by the dispatch before it hit the failure (even in
+            // the same poll): acceptable iff its deadline had passed when the failure happened
+            let ts = times(&e.recs);
             let deadline_ok = o == "Deadline"
-                && f.id_of.get(&(*i as u32)).is_some()
-                && f.q2.is_some();
-            if !(ok_with_reply || conn_err || own_send_failed || (deadline_ok && false)) {
-                // DeadlineExceeded is acceptable only if it was observed before the fault was hit
+                && time_at(&ts, fidx) >= cfg.callers[*i].deadline_ms as i128 * 1_000_000;
+            if !(ok_with_reply || conn_err || own_send_failed || deadline_ok) {
                 v(
                     vs,
                     "C09-outcome-after-fault",
